@@ -160,6 +160,10 @@ def run_jobs(ctx, stream, jobs, project=None, nontrivial=None):
     model = ctx.driver.run_sharded(lines) if lines else []
     # the whole real call timed out: the model must say `hang` somewhere (partial scan results are not observable)
     model = ["hang" if (i == "hang" and m.endswith("hang)")) else m for m, i in zip(model, impl)]
+    # CPython's recursion limit (deep right-recursive grammars on long inputs) is a property of the runtime, not of
+    # pyparsing's algorithm: such calls are not compared (counted in the evidence)
+    n_rec = sum(1 for i in impl if "internal RecursionError" in i)
+    model = [common.Driver.MODEL_TIMEOUT if "internal RecursionError" in i else m for m, i in zip(model, impl)]
     if project is not None:
         pm, pi = [], []
         for c, m, i in zip(cases, model, impl):
@@ -179,6 +183,8 @@ def run_jobs(ctx, stream, jobs, project=None, nontrivial=None):
                            outcome_of=outcome_of)
     st = ctx.cov["streams"][stream] if cases else ctx.cov["streams"].setdefault(stream, {"cases": 0, "diffs": 0, "outcomes": {}})
     st["skipped_grammars"] = {**st.get("skipped_grammars", {}), **skips}
+    if n_rec:
+        st["python_recursion_limit"] = st.get("python_recursion_limit", 0) + n_rec
     kk = st.setdefault("node_kinds_hit", {})
     for k, v in kinds.items():
         kk[k] = kk.get(k, 0) + v
